@@ -273,7 +273,9 @@ public:
   virtual void actOnDefaultDecl(ArrayRef<Token> nameToks) override {
     // Resolve all of the inputs and outputs.
     for (const auto& nameTok: nameToks) {
-      StringRef name(nameTok.start, nameTok.length);
+      // The target is a path string: evaluate its escapes and variables.
+      SmallString<256> name;
+      evalString(nameTok, getCurrentScope(), name);
       Node* node = manifest->findNode(workingDirectory, name);
 
       if (node == nullptr) {
